@@ -386,6 +386,12 @@ func (e *ctlEnv) fence(timeout time.Duration) bool {
 			for pfcp.VerifToLen(e.srv) > 0 {
 				time.Sleep(20 * time.Microsecond)
 			}
+			// an empty queue only says the loop has TAKEN the item; a second, no-op timeout (unknown key:
+			// a look-up and a log line) behind it is taken only after the first has been handled completely
+			e.srv.NotifyTransTimeout(pfcp.RX, "verif-barrier-0")
+			for pfcp.VerifToLen(e.srv) > 0 {
+				time.Sleep(20 * time.Microsecond)
+			}
 			return true
 		}
 	}
@@ -400,9 +406,8 @@ func (e *ctlEnv) drain() map[int][][]byte {
 			continue
 		}
 		for {
-			conn.SetReadDeadline(time.Now().Add(200 * time.Microsecond))
-			n, _, err := conn.ReadFromUDP(buf)
-			if err != nil {
+			n, ok := recvNow(conn, buf)
+			if !ok {
 				break
 			}
 			out[k] = append(out[k], append([]byte(nil), buf[:n]...))
